@@ -54,7 +54,10 @@ func (k *KeltnerChannel[T]) Compute(highs, lows, closings <-chan T) (<-chan T, <
 	//	2 * ATR(period, highs, lows, closings)
 	atrs := helper.Duplicate(
 		helper.MultiplyBy(
-			k.Atr.Compute(highs, lows, closingsSplice[0]),
+			helper.Skip(
+				k.Atr.Compute(highs, lows, closingsSplice[0]),
+				k.Ema.IdlePeriod()-k.Atr.IdlePeriod(),
+			),
 			2,
 		),
 		2,
@@ -80,5 +83,5 @@ func (k *KeltnerChannel[T]) Compute(highs, lows, closings <-chan T) (<-chan T, <
 
 // IdlePeriod is the initial period that Keltner Channel won't yield any results.
 func (k *KeltnerChannel[T]) IdlePeriod() int {
-	return k.Atr.IdlePeriod()
+	return max(k.Atr.IdlePeriod(), k.Ema.IdlePeriod())
 }
